@@ -26,6 +26,8 @@ func init() {
 			ruleNoSwallowedErrors(r, "T9", 5, true, "/transport/reconnect")
 			ruleC18T10(r)
 			ruleC18T11(r)
+			ruleDurationUnits(r, "T12", "/transport/reconnect", "/internal/retry", "/transport")
+			ruleCheckThenActAtomic(r, "T13", "/transport/reconnect", "/internal/retry")
 		},
 	})
 }
@@ -398,6 +400,72 @@ func ruleC18T7(r *Run, le *LockEngine) {
 			}
 		}
 	})
+	// the queuing can be abandoned: it is a select that also watches a Done() channel, here or in the helper the
+	// channel is handed to (after Close nobody drains the queue; a plain send blocks once it is full)
+	abandon := false
+	selectWatchesDone := func(sel *ssa.Select, isQ func(ssa.Value) bool) bool {
+		snd, done := false, false
+		for _, st := range sel.States {
+			if st.Dir == types.SendOnly && isQ(st.Chan) {
+				snd = true
+			}
+			if st.Dir == types.RecvOnly {
+				if _, isDone := doneLike(st.Chan); isDone {
+					done = true
+				}
+			}
+		}
+		return snd && done
+	}
+	isQField := func(v ssa.Value) bool {
+		return hasLeaf(p.Leaves(v, provOpts{}), "field:"+rcPkg+".Transport.writeReqCh")
+	}
+	allInstrs(wr, func(ins ssa.Instruction) {
+		switch x := ins.(type) {
+		case *ssa.Send:
+			if isQField(x.Chan) {
+				queue = ins
+			}
+		case *ssa.Select:
+			for _, st := range x.States {
+				if st.Dir == types.SendOnly && isQField(st.Chan) {
+					queue = ins
+					abandon = selectWatchesDone(x, isQField)
+				}
+			}
+		}
+	})
+	var helperWatches func(cal *ssa.Function, idx, depth int) bool
+	helperWatches = func(cal *ssa.Function, idx, depth int) bool {
+		if cal == nil || cal.Blocks == nil || idx >= len(cal.Params) || depth > 3 {
+			return false
+		}
+		prm := cal.Params[idx]
+		found := false
+		allInstrs(cal, func(x ssa.Instruction) {
+			if sel, isSel := x.(*ssa.Select); isSel && selectWatchesDone(sel, func(v ssa.Value) bool { return canonVal(v) == ssa.Value(prm) }) {
+				found = true
+			}
+			if c2 := instrCall(x); c2 != nil {
+				if _, isSel := x.(*ssa.Select); !isSel {
+					for j, a := range c2.Args {
+						if canonVal(a) == ssa.Value(prm) && helperWatches(c2.StaticCallee(), j, depth+1) {
+							found = true
+						}
+					}
+				}
+			}
+		})
+		return found
+	}
+	if cc := instrCallOrNil(queue); cc != nil {
+		for i, a := range cc.Args {
+			if isQField(a) && helperWatches(cc.StaticCallee(), i, 0) {
+				abandon = true
+			}
+		}
+	}
+	r.Check(name+" queuing can be abandoned", queue != nil && abandon, p.pos(wr.Pos()), name, "the request is queued with a select that also watches a Done() channel (directly or in the helper): once the write loop is gone a plain send blocks the caller as soon as the queue is full")
 	ok := reg != nil && queue != nil && dominatesInstr(reg, queue)
 	okCap := false
 	if reg != nil {
@@ -602,4 +670,14 @@ func loopWithRedial(p *Prog, loop, rc *ssa.Function) *ssa.Function {
 		return out
 	}
 	return loop
+}
+
+func instrCallOrNil(ins ssa.Instruction) *ssa.CallCommon {
+	if ins == nil {
+		return nil
+	}
+	if _, isSel := ins.(*ssa.Select); isSel {
+		return nil
+	}
+	return instrCall(ins)
 }
